@@ -1078,7 +1078,8 @@ def source_cases(rnd, tier):
         subset = [rnd.random() < 0.6 for _ in range(neq)]
         calls = []
         coefs = [rnd.choice([0.5, -2.0, 1.0, 3.25]) for _ in range(neq)]
-        shape = rnd.choice(["state", "position", "const"])
+        shape = rnd.choice(["state", "position", "const", "tabulated", "tabulated"])
+        tables = {}
 
         def mk(i):
             def src(x, q):
@@ -1087,6 +1088,11 @@ def source_cases(rnd, tier):
                     return coefs[i] * q[(i + 1) % neq] * (1.0 + x)
                 if shape == "position":
                     return coefs[i] * np.sin(x) + 0.0 * q[0]
+                if shape == "tabulated":        # a profile computed once and returned (the SAME array object) at every call
+                    if i not in tables:
+                        tables[i] = coefs[i] * (1.0 + np.cos(x))
+                        tables[(i, "copy")] = tables[i].copy()
+                    return tables[i]
                 return coefs[i] + 0.0 * x
             return src
         srcs = [mk(i) if subset[i] else None for i in range(neq)]
@@ -1115,10 +1121,21 @@ def source_cases(rnd, tier):
                 continue        # the section must stay positive on the mesh
             fw = field_from_prim(mw, m, prim)
             f0 = field_from_prim(m0, m, prim)
+            xc0 = np.asarray(m.centers(), dtype=float).copy()
             with np.errstate(all="ignore"):
                 Rw = [np.array(r, dtype=float) for r in dw.rhs(fw)]
                 ncalls = len(calls)
+                # the operator is evaluated again (as every integrator does): sources are added exactly once each time
+                for _rep in range(2):
+                    Rw = [np.array(r, dtype=float) for r in dw.rhs(fw)]
                 R0 = [np.array(r, dtype=float) for r in d0.rhs(f0)]
+            for key in list(tables):
+                if isinstance(key, int) and not np.array_equal(tables[key], tables[(key, "copy")]):
+                    tables[key][:] = tables[(key, "copy")]
+                    user_modified = True
+                    break
+            else:
+                user_modified = False
             worst = 0
             xc = np.asarray(m.centers(), dtype=float)
             for i in range(neq):
@@ -1130,13 +1147,15 @@ def source_cases(rnd, tier):
                     if sc == 0:
                         continue
                     worst = max(worst, core.ulps(F(float(Rw[i][k])) - F(float(R0[i][k])), F(float(want[k])), sc))
-            args = 1
+            args = 0 if user_modified else 1        # the user's own arrays (returned by a source) must not be written to
             seen = [cl for cl in calls[:ncalls]]
             if len(seen) != sum(subset):
                 args = 0
             for (i, x, q) in seen:
                 if not (np.array_equal(x, xc) and all(np.array_equal(a, b) for a, b in zip(q, fw.data))):
                     args = 0
+            if not np.array_equal(np.asarray(m.centers(), dtype=float), xc0):
+                args = 0                                   # the mesh centres handed to the sources were modified
             rec = dict(kind="src", diff=worst, tol=8, args=args, model=kind, flux=str(flux), recon=recon, n=n,
                        subset=[int(b) for b in subset], shape=shape, geom=0)
             recs.append(rec)
